@@ -5,6 +5,7 @@ import (
 	"os"
 	"sort"
 	"strings"
+	"sync/atomic"
 	"unsafe"
 
 	"github.com/bilibili/gengine/verifrt/vsched"
@@ -361,6 +362,41 @@ func selfTest(c *hx.Ctx) {
 	if len(v) != 0 || keys(o) != "1 0 [] | 1 1 []" {
 		fail("reader / writer / reader: outcomes %q verdicts %q, want y in {0,1}, no verdict", keys(o), keys(v))
 	}
+	// 7c. atomics: a flag published with an atomic store orders the data written before it (no race);
+	// a compare-and-swap spin lock terminates under the fair yield and excludes
+	atomicPub := func(st *selfState) {
+		var flag int32
+		spawn2(st,
+			func() {
+				vsched.W(unsafePtr(&st.racy), 900021)
+				st.racy = 5
+				atomic.StoreInt32(vsched.AtomicP(&flag), 1)
+			},
+			func() {
+				if atomic.LoadInt32(vsched.AtomicP(&flag)) == 1 {
+					st.x = vsched.R(&st.racy, 900022)
+				}
+			})
+	}
+	o, v, n, _ = selfExplore("atomic-publish", atomicPub, 2, false, true, true)
+	if n != 0 || len(v) != 0 || keys(o) != "0 0 [] | 5 0 []" {
+		fail("data published through an atomic flag: %d race pairs, outcomes %q verdicts %q, want no race and x in {0,5}", n, keys(o), keys(v))
+	}
+	casLock := func(st *selfState) {
+		var l int32
+		inc := func() {
+			for c := 0; !atomic.CompareAndSwapInt32(vsched.AtomicP(&l), 0, 1); c++ {
+				vsched.SpinYield()
+			}
+			st.x++
+			atomic.StoreInt32(vsched.AtomicP(&l), 0)
+		}
+		spawn2(st, inc, inc)
+	}
+	o, v, _, _ = selfExplore("atomic-cas-lock", casLock, 2, false, true, false)
+	if len(v) != 0 || keys(o) != "2 0 []" {
+		fail("compare-and-swap spin lock: outcomes %q verdicts %q, want x=2 and no verdict", keys(o), keys(v))
+	}
 	// 8. condition variable and Once shims
 	condOK := func(st *selfState) {
 		cv := vsync.NewCond(&st.mu)
@@ -433,8 +469,8 @@ func selfTest(c *hx.Ctx) {
 		}
 	}
 	c.Res.Execs += ep + en
-	c.Res.AddExtra("cases", 27)
-	c.Res.Sample("27 known-answer scenarios: DeepClone backing-array sharing, RWMutex writer preference (recursive read lock deadlock / plain), slice-element race / no race, condition variable (flag under lock / lost signal), Once, channel ping / no sender / full buffer / select / lost wake-up, lost update (bounds 0/1, delay 1), locked update, AB-BA deadlock, WaitGroup negative / stuck, fair spin loop, endless spin loop, race monitor positive / negative, pruning vs no pruning")
+	c.Res.AddExtra("cases", 29)
+	c.Res.Sample("29 known-answer scenarios: atomics (publication / CAS spin lock), DeepClone backing-array sharing, RWMutex writer preference (recursive read lock deadlock / plain), slice-element race / no race, condition variable (flag under lock / lost signal), Once, channel ping / no sender / full buffer / select / lost wake-up, lost update (bounds 0/1, delay 1), locked update, AB-BA deadlock, WaitGroup negative / stuck, fair spin loop, endless spin loop, race monitor positive / negative, pruning vs no pruning")
 }
 
 func init() {
